@@ -25,7 +25,7 @@ def want_mode(flags):
 
 class FdTable(EngineBase):
     name = "fdtable"
-    SHRINK_LISTS = [("inside",), ("fds",)]
+    SHRINK_LISTS = [("inside",), ("block", "between"), ("fds",)]
 
     def boot_config(self, rng):
         b = EngineBase.boot_config(self, rng)
@@ -77,7 +77,25 @@ class FdTable(EngineBase):
         subject = plan["subject"]
         for e in plan.get("inside") or []:
             k.schedule_at_access(0, 1, e["k"], e["ev"])
-        initial = {int(fd): dict(d) for fd, d in fds.items()}
+        block = plan.get("block")
+        cm = None
+        if block:
+            # the judged call is the second one inside a oneshot() block,
+            # after the table changed: it must describe the table it runs
+            # against, not the one its predecessor saw
+            cm = p.oneshot()
+            k.begin_op(5)
+            try:
+                cm.__enter__()
+                getattr(p, block["first"])()
+            except BaseException as e:  # noqa: BLE001
+                if is_harness_exc(e):
+                    raise
+            k.end_op()
+            for ev in block["between"]:
+                k.apply_event(ev)
+        initial = {int(fd): dict(d) for fd, d in (
+            k.procs[T].fds if T in k.procs else {}).items()}
         acc0 = len(k.acclog)
         ver0 = k.version
         k.begin_op(1)
@@ -88,6 +106,12 @@ class FdTable(EngineBase):
                 raise
             out = ("exc", e)
         k.end_op()
+        if cm is not None:
+            try:
+                cm.__exit__(None, None, None)
+            except BaseException as e:  # noqa: BLE001
+                if is_harness_exc(e):
+                    raise
         acc = [a for a in k.acclog[acc0:] if a[2] >= 0]
         res = {"violations": viol, "nacc": len(acc),
                "acc": [[a[2], a[3], str(a[4])] for a in acc][:400]}
@@ -98,6 +122,8 @@ class FdTable(EngineBase):
         opened = {fd for fd in (k.procs[T].fds if T in k.procs else {})
                   if fd not in initial}
         tags = []
+        if block:
+            tags.append("second_call_in_block")
         if changed:
             tags.append("table_changed")
         if not alive:
@@ -124,6 +150,10 @@ class FdTable(EngineBase):
                     if a[3] == "listdir":
                         lst = k.snap_at(a[7])
                 want = len(lst[T][3]) if lst and T in lst else None
+                if lst is None and not changed:
+                    # no listing at all during the call
+                    want = len(initial)
+                    tags = tags + ["no_listing_in_call"]
                 if want is not None and val != want:
                     V("C14.num_fds", tags, subject, "num_fds() -> %r, table "
                       "size at the listing %r" % (val, want))
@@ -207,6 +237,29 @@ class FdTable(EngineBase):
             if not self._absorb(u, base, dry, ("dry", subject)):
                 continue
             n = dry.get("nacc", 0)
+            fdnums0 = [fd for fd, _ in world["fds"]]
+            for j in range(2 if tier == "quick" else 6):
+                between = []
+                for _ in range(rng.choice([1, 2, 3])):
+                    if fdnums0 and rng.random() < 0.5:
+                        between.append({"ev": "close_fd", "pid": 42,
+                                        "fd": rng.choice(fdnums0)})
+                    else:
+                        files = {}
+                        newfd = 300 + rng.randrange(50)
+                        d = gen.gen_fd(rng, newfd, files)
+                        if all(f in world["files"] for f in files):
+                            between.append({"ev": "open_fd", "pid": 42,
+                                            "fd": newfd, "desc": d})
+                if not between:
+                    continue
+                bp = dict(base, block={"first": rng.choice(
+                    ["open_files", "num_fds", "io_counters"]),
+                    "between": between})
+                r = W.execute_forked(bp)
+                u["evals"] += 1
+                self._absorb(u, bp, r, ("block", subject, bp["block"]["first"],
+                                        str(len(between))))
             if subject != "open_files" or n == 0:
                 continue
             fdnums = [fd for fd, _ in world["fds"]]
